@@ -114,8 +114,8 @@ func c08Core() {
 	close(r.closed)
 	r.cc = bigbuff.NewChanCaster(make(chan int))
 	unit := time.Microsecond
-	nSend := simrt.DrawRange(1, 2)
-	nRecv := simrt.DrawRange(1, 4)
+	nSend := simrt.DrawRange(1, 2+simrt.Scale()-1)
+	nRecv := simrt.DrawRange(1, 4*simrt.Scale())
 	sendPlans := make([][]*ccSend, nSend)
 	for i := range sendPlans {
 		for k := simrt.DrawRange(1, 3); k > 0; k-- {
